@@ -183,7 +183,7 @@ def rand_case(rng, tier):
 
 
 def gen(rng, tier):
-    count = 64 if tier == "quick" else 600
+    count = 120 if tier == "quick" else 600
     return [("address_order", "a%d" % k, rand_case(rng, tier)) for k in range(count)]
 
 
